@@ -6,15 +6,16 @@ from mc import core, hist, lib
 from scoda.sequences.sequence import Sequence
 
 ENGINE = "E1-sweep"
+TICK_EVERY = 5      # every 5th case of every unit is repeated with numpy integer ticks (int64 / int32)
 RULE = ("all multisets of 1-3 member sequences (members = every well-formed set of <=2 notes over the interval lattice x 2 "
         "channels (x 2 pitches thorough), empty members, members with 0-2 signature events, trailing-rest variants) x ALL "
         "permutations x {merged into an empty receiver, merged into the first member}; compared with the union model; "
         "non-trivial = two members share a (channel, pitch) and overlap or abut")
 SCALE = ('16-120 notes in 2-3 members; a 1-2 note phrase touching / overlapping / preceding the i-th note for EVERY i of a 33/65/129-note piece; 4, 5 and 6 members all sounding one (channel, pitch) at once (nested, staircase, identical; every permutation up to 5 members, all rotations and reversals for 6)')
 ASSUMPTIONS = ["velocity of fused notes is not demanded", "members never carry two different signatures of one kind on one tick"]
-REQUIRED_FLAGS = ["after_history", "overlap_fused", "nested", "abutting_kept_separate", "identical_notes", "empty_member",
+REQUIRED_FLAGS = ["operands_not_a_list", "after_history", "overlap_fused", "nested", "abutting_kept_separate", "identical_notes", "empty_member",
                   "signature_repeat_dropped", "member_restates_own_signature_after_foreign_change", "different_durations", "permutation_checked", "receiver_nonempty", "five_or_more_members",
-                  "short_phrase_into_long_piece"]
+                  "short_phrase_into_long_piece", "receiver_among_its_own_operands"]
 
 
 def context(tier, seed):
@@ -67,6 +68,12 @@ def units(ctx):
             yield ("phrase", n, r)
     for k in (4, 5, 6):
         yield ("deep", k)
+    for i in range(len(small)):
+        yield ("self", i)
+
+
+def gen_cases(unit, ctx):
+    return lib.with_carriers(_gen_cases(unit, ctx), 6, "opcarrier", ("tuple", "generator", "iterator", "map", "reversed"))
 
 
 def _fam(ms, durs=None):
@@ -75,7 +82,7 @@ def _fam(ms, durs=None):
                          "dur": (m.get("dur") if isinstance(m, dict) else None)} for m in ms]}
 
 
-def gen_cases(unit, ctx):
+def _gen_cases(unit, ctx):
     if unit[0] == "phrase":
         # scale: a short phrase merged with a long piece (33 / 65 / 129 notes); the phrase's note touches, overlaps or
         # precedes the i-th note of the piece on the same channel and pitch - for EVERY i
@@ -89,6 +96,19 @@ def gen_cases(unit, ctx):
                 if ph:
                     yield {"members": [{"notes": [list(x) for x in ns], "events": [], "dur": None},
                                        {"notes": [list(x) for x in ph], "events": [], "dur": None}]}
+        return
+    if unit[0] == "self":
+        # families in which one sequence OBJECT occurs twice: the receiver among its own operands, a member listed twice,
+        # a member beside its own copy
+        small, _ = members(ctx)
+        for j in range(unit[1], len(small)):
+            fam = _fam([small[unit[1]], small[j]])
+            fam["selfops"] = True
+            yield fam
+            if j % 5 == 0:
+                fam2 = _fam([{"notes": small[unit[1]], "events": [("ts", 0, 3, 4)], "dur": 9}, small[j]])
+                fam2["selfops"] = True
+                yield fam2
         return
     if unit[0] == "deep":
         # scale in the number of members: k sequences all sounding one (channel, pitch) at once - nested, staircase,
@@ -247,21 +267,34 @@ def check_case(case, ctx):
     if len(mems) == 2 and len(mems[0]["notes"]) >= 33 and 0 < len(mems[1]["notes"]) <= 2:
         R.flags.append("short_phrase_into_long_piece")
     for perm in perms:
-        for mode in ("into_empty", "into_first"):
+        for mode in ("into_empty", "into_first") + (("self_among_operands", "member_twice", "member_and_its_copy")
+                                                    if case.get("selfops") else ()):
             # members are built alternately through the absolute and the relative representation
             seqs = [hist.live_case(live_spec, core.Res(), ctx["p"], *ctx["ch"], hp=ctx["p"] - 20)[0] if mems[i].get("live") else
                     (lib.seq_rel(mems[i]["notes"], mems[i]["events"], mems[i]["dur"]) if (k + (mode == "into_first")) % 2 else
                      lib.seq_abs(mems[i]["notes"], mems[i]["events"], mems[i]["dur"],
                                  order=("sane", "reverse", "ons_first")[(i + len(perm) + (mode == "into_first")) % 3]))
                     for k, i in enumerate(perm)]
-            if mode == "into_empty":
+            if mode == "self_among_operands":
+                recv, rest = seqs[0], [seqs[0]] + seqs[1:]
+                R.flags.append("receiver_among_its_own_operands")
+            elif mode == "member_twice":
+                recv, rest = Sequence(), seqs + [seqs[0]]
+            elif mode == "member_and_its_copy":
+                recv, rest = Sequence(), seqs + [seqs[-1].copy()]
+            elif mode == "into_empty":
                 recv, rest = Sequence(), seqs
             else:
                 recv, rest = seqs[0], seqs[1:]
                 if mems[perm[0]]["notes"]:
                     R.flags.append("receiver_nonempty")
             try:
-                recv.merge(rest)
+                if case.get("opcarrier"):
+                    # the same operands handed over as a tuple / generator / iterator / map object / reversed(...)
+                    recv.merge(lib.carriers(rest)[case["opcarrier"]]())
+                    R.flags.append("operands_not_a_list")
+                else:
+                    recv.merge(rest)
                 o = lib.obs(recv)
             except Exception as e:  # noqa: BLE001
                 R.bad("merge_raises", f"perm {perm} {mode}: {type(e).__name__}: {e}")
